@@ -26,7 +26,7 @@ type C07Case struct {
 	Show   string `json:"show,omitempty"` // readable preview, ignored by the check
 }
 
-func init() { Register("C07", checkC07) }
+func init() { Register("C07", "parser", checkC07) }
 
 type parseResult struct {
 	file  directives.File
@@ -34,29 +34,17 @@ type parseResult struct {
 	panic any
 }
 
-func parseGuarded(text string) (parseResult, bool) {
-	ch := make(chan parseResult, 1)
-	go func() {
-		var r parseResult
-		defer func() {
-			if p := recover(); p != nil {
-				r.panic = p
-			}
-			ch <- r
-		}()
+func parseGuarded(c C07Case, text string) parseResult {
+	var r parseResult
+	r.panic = Guard("C07", "parser", c, 30*time.Second, func() {
 		p := parser.New(text, "mem.knut")
 		if err := p.Advance(); err != nil {
 			r.err = err
 			return
 		}
 		r.file, r.err = p.ParseFile()
-	}()
-	select {
-	case r := <-ch:
-		return r, true
-	case <-time.After(30 * time.Second):
-		return parseResult{}, false
-	}
+	})
+	return r
 }
 
 var rangeType = reflect.TypeOf(directives.Range{})
@@ -70,11 +58,7 @@ func checkC07(c C07Case) Outcome {
 	if strings.Contains(text, "\r") {
 		o.Labels = append(o.Labels, "has-CR")
 	}
-	r, done := parseGuarded(text)
-	if !done {
-		o.Violation = V("hang", "parser did not terminate within 30 s on %d bytes", len(text))
-		return o
-	}
+	r := parseGuarded(c, text)
 	if r.panic != nil {
 		o.Violation = V("panic", "parser panicked: %v", r.panic)
 		return o
@@ -504,5 +488,5 @@ func drawC07(t *rapid.T) C07Case {
 }
 
 func TestC07(t *testing.T) {
-	runProp(t, "C07", drawC07, checkC07)
+	runProp(t, "C07", "parser", drawC07, checkC07)
 }
